@@ -319,6 +319,12 @@ def gen_spec(seed, profile=None):
         else:
             routes = [[r.sample(range(1, n + 1), r.randint(1, n)) for _ in range(r.randint(0, 3))] for _ in range(3)]
             rt[c] = {'r': 'fpb', 'routes': routes, 'rule': r.choice(['any', 'all']), 'choice': r.choice(['random', 'jsq', 'lb'])}
+            if P('p_fpb_dup', 0.0) > 0:   # own stream; a stage may list a node twice (two visits wanted under rule 'all')
+                rd = random.Random(seed * 19 + 7 + len(rt))
+                if rd.random() < P('p_fpb_dup', 0.0):
+                    stages = [st for route in routes for st in route if st]
+                    if stages:
+                        st = rd.choice(stages); st.append(rd.choice(st))
     spec['routing'] = rt
     # class change after service
     if ncls > 1 and r.random() < P('p_ccm', 0.3):
@@ -512,8 +518,10 @@ def build(spec, logs=None, fault=None):
         if base is None: return None
         if fault is not None and fault[0] == stream[0]:
             if fault[2] == 'COMBNEG':
-                # both operands of a combined distribution are valid, their difference is not (k-th draw: base - 1e6)
-                base = base - FaultDist(ciw.dists.Deterministic(0.0), fault[1], 1e6, fault[3])
+                # both operands of a combined distribution are valid, their difference is not (k-th draw: base - 1e6); the combined
+                # object itself is what the engine gets (no logging wrapper around it, whose own validation would mask it)
+                inner = base if slog is None else LogDist(base, stream, slog)
+                return inner - FaultDist(ciw.dists.Deterministic(0.0), fault[1], 1e6, fault[3])
             else:
                 base = FaultDist(base, fault[1], fault[2], fault[3])
         if slog is None: return base
